@@ -653,11 +653,16 @@ def _pair_instances(dest: T, traj: T):
                 Interp.unname(c.args[1]).op == "tuple":
             if not any(c.args[1] is k for k in kinds):
                 kinds.append(Interp.unname(c.args[1]))
+        elif not (c.op == "list" and not c.args) and c.op != "undefined":
+            # a part that is no literal pair (list(d.items()), a call ...):
+            # the element is not read through, the items() rules judge it
+            opaque.append(c)
     found = []
     for x in cands:
         kinds = []
+        opaque = []
         go(x.args[0])
-        if kinds:
+        if kinds and not opaque:
             found.append((x, kinds))
     # (the outermost such element: inner ones occur inside its pairs)
     found = [(x, k) for x, k in found if not any(
